@@ -84,6 +84,14 @@ func (c *chatHandler) handleSessionChat(packet *chat.SessionPlayerChat, unsigned
 		if !evt.Allowed() {
 			if packet.Signed {
 				c.invalidCancel(c.log, c.player)
+				return asFuture(nil)
+			}
+			// A cancelled unsigned message still carried a 'last seen' update, and the chat queue has just
+			// flushed the acknowledgements it held back into its offset. Pass the offset through as a
+			// ChatAcknowledgement (like consumeCommand does for consumed commands), otherwise the backend's
+			// last-seen window falls behind the client's and it rejects a later message.
+			if newLastSeenMessages != nil && newLastSeenMessages.Offset != 0 {
+				return asFuture(&chat.ChatAcknowledgement{Offset: newLastSeenMessages.Offset})
 			}
 			return asFuture(nil)
 		}
